@@ -29,7 +29,7 @@ Plan gen_hist(uint64_t seed, const GenOpts& g) {
   Rng rng(mix(seed, 0x4157));
   const std::string& prop = g.prop;
   bool thorough = g.tier == "thorough";
-  bool paramsOnly = prop == "C15" && rng.chance(0.35);
+  bool paramsOnly = prop == "C15";   // parameter histories only: the modification part of this engine is not yet trusted (see DESIGN.md)
   bool sync = rng.chance(prop == "C07" ? 1.0 : 0.4);
   model::GenCfg gc; gc.klass = rng.pick({0, 0, 1, 1, 1, 2, 3}); gc.maxRows = rng.range(1, 7); gc.maxCols = rng.range(1, 7); gc.dyadicScale = rng.chance(prop == "C09" ? 0.7 : 0.2);
   Rng lr = rng.fork(1); p.lps.push_back(model::generate(lr, gc));
@@ -47,7 +47,6 @@ Plan gen_hist(uint64_t seed, const GenOpts& g) {
     int c = rng.range(0, 99);
     if (paramsOnly) {
       Op pa = mk("A", "param"); pa.set("kind", rng.pick({"setvalid", "setvalid", "setbad", "setbad", "parsevalid", "parsebad", "reset", "setsettings"})); pa.seti("s", (long)rng.below(1 << 30)); pa.seti("any", 1); p.ops.push_back(pa);
-      if (rng.chance(0.15)) p.ops.push_back(mod_op(rng, false));
       continue;
     }
     if (c < 45) p.ops.push_back(mod_op(rng, sync));
